@@ -361,12 +361,7 @@ def check_incres(run, drv, pending, base, spec, region, cells, orng, seed):
         return
     # the refined region: every fine cell's midpoint lies in its parent cell of the coarse region, factor^2 per parent
     # (theorem refinement_partition), and is attributed to the fine cell itself
-    from . import c01 as _c01
-    if _c01._displaced_class(float(a[:, 0].min()), float(ndh)) or _c01._displaced_class(float(a[:, 1].min()), float(ndh)) or \
-            _c01._displaced_class(float(pts[:, 0].min()), float(dh)) or _c01._displaced_class(float(pts[:, 1].min()), float(dh)):
-        # AWAITING_DECISION_BUILD[0] of harness/c01.py (noisy spacing, coarse anchor): observed, not enforced
-        run.count("awaiting-decision: refined region with a noisy spacing and a coarse anchor (cleaner_range fallback displaces the grid)")
-        return
+    # (until fix D49 the refined region was skipped in the class "noisy spacing, coarse anchor"; now enforced)
     try:
         fine = CartesianGrid2D.from_origins(a.copy(), dh=ndh)
         coarse = CartesianGrid2D.from_origins(pts.copy(), dh=dh)
@@ -1081,11 +1076,247 @@ def check_aftershock(run, base, region, cells, seed):
             run.oracle_failure(case, f"midpoint of cell {k} of the aftershock region is attributed to cell {int(own[k])}")
 
 
+# ------------------------------------------------------------------------------------------------- histories of re-binding on ONE catalog
+def _grid_apis(cat, mag_edges):
+    """every gridding API of a catalog, each reduced to a comparable value or the class of the exception it raised"""
+    out = {}
+    for name, fn in (("spatial_counts", lambda: numpy.asarray(cat.spatial_counts(), dtype=float).tolist()),
+                     ("spatial_event_probability", lambda: numpy.asarray(cat.spatial_event_probability(), dtype=float).tolist()),
+                     ("get_spatial_idx", lambda: [int(v) for v in numpy.asarray(cat.get_spatial_idx())]),
+                     ("spatial_magnitude_counts", lambda: numpy.asarray(cat.spatial_magnitude_counts(mag_bins=mag_edges), dtype=float).tolist()),
+                     ("to_dataframe.region_id", lambda: [int(v) for v in cat.to_dataframe()["region_id"]])):
+        try:
+            out[name] = fn()
+        except ValueError:
+            out[name] = "ValueError"
+        except Exception as e:
+            out[name] = "EXC:" + type(e).__name__
+    return out
+
+
+def check_rebinding_history(run, base, spec, region, cells, flags, orc, pts, ans, exact_only, orng, seed):
+    """ONE catalog object, re-bound (`cat.region = R`, as CatalogForecast.get_expected_rates and users do) to a sequence of regions
+    that are EQUAL BUT FOR ONE THING — the per-cell mask flags, a hole, the name, a shift by one cell — with every gridding API called
+    after every re-binding (and twice: the returned arrays are overwritten in between). Each result must be what a FRESH catalog of the
+    same events bound to that region gives (for regions a / b also what the oracle says: ValueError exactly when an event lies in no
+    active cell). Added after the seeded change C01_12 (cell indices memoised on the catalog and validated with `==`, which ignores the
+    mask flags) was missed: the sessions re-bound through filter_spatial only and never to a region that compares equal."""
+    from csep.core.regions import CartesianGrid2D
+    from csep.core.catalogs import CSEPCatalog
+    n = len(region.polygons)
+    if n > 2000 or n < 2:
+        return
+    org = numpy.asarray(region.origins(), dtype=float)
+    dh = region.dh
+    name = getattr(region, "name", None)
+    regs = {"a": region}
+    try:
+        other = [1 if orng.random() < 0.6 else 0 for _ in range(n)]
+        if spec.get("mask") is None and all(other):
+            other[orng.randrange(n)] = 0
+        regs["flags"] = CartesianGrid2D(region.polygons, dh, name=name, mask=other)                 # same cells, other mask flags
+        keep = [k for k in range(n) if orng.random() < 0.8] or [0]
+        if len(keep) == n:
+            keep = keep[:-1]
+        regs["hole"] = CartesianGrid2D([region.polygons[k] for k in keep], dh, name=name)             # some cells missing
+        regs["name"] = CartesianGrid2D(region.polygons, dh, name="another-name",
+                                       mask=None if spec.get("mask") is None else list(spec["mask"]))  # other name only
+        regs["shift"] = CartesianGrid2D.from_origins(org + numpy.array([float(dh), 0.0]), dh=dh, name=name)   # moved by one cell
+        regs["twin"] = CartesianGrid2D(region.polygons, dh, name=name,
+                                       mask=None if spec.get("mask") is None else list(spec["mask"]))  # a second, identical object
+    except Exception as e:
+        run.oracle_failure(dict(base, points=[], what="ops:rebinding_history", ops_seed=seed), f"building the region family raised {type(e).__name__}: {e}")
+        return
+    pool = sorted(exact_only)
+    if len(region.xs) == 1:
+        pool = [k for k in pool if Fraction(pts[k][0]) < orc.ax.top]
+    if len(region.ys) == 1:
+        pool = [k for k in pool if Fraction(pts[k][1]) < orc.ay.top]
+    ins = [k for k in pool if ans[k] != "o"]
+    if not ins:
+        return
+    # mostly events inside region a (so that its counts exist), a few anywhere
+    ids = [orng.choice(ins) for _ in range(orng.randint(1, 25))] + [orng.choice(pool) for _ in range(orng.randint(0, 2))]
+    ev = [pts[k] for k in ids]
+    mags = [4.0 + 0.37 * (i % 7) for i in range(len(ev))]
+    mag_edges = numpy.array([3.95, 4.95, 5.95, 6.95])
+    data = [(str(i), 1000 * i, float(lat), float(lon), 10.0, mags[i]) for i, (lon, lat) in enumerate(ev)]
+    order = [orng.choice(list(regs)) for _ in range(orng.randint(3, 6))]
+    if "a" not in order[:2]:
+        order.insert(0, "a")
+    if "flags" not in order:
+        order.insert(orng.randint(1, len(order)), "flags")
+    case = dict(base, points=[[repr(p[0]), repr(p[1])] for p in ev], what="ops:rebinding_history", ops_seed=seed, order=order)
+    run.case(None, ("rebinding", seed, tuple(order), len(ev)))
+    run.count("ops:rebinding-history")
+    try:
+        cat = CSEPCatalog(data=data, region=regs[order[0]])
+    except Exception as e:
+        run.oracle_failure(case, f"CSEPCatalog(...) raised {type(e).__name__}: {e}")
+        return
+    snaps = {t: _snap(r) for t, r in regs.items()}
+    for step, t in enumerate(order):
+        cat.region = regs[t]
+        got = _grid_apis(cat, mag_edges)
+        # overwrite what was returned, then ask again (a returned array must not alias a cache)
+        try:
+            for fn in (cat.spatial_counts, cat.spatial_event_probability, cat.get_spatial_idx):
+                r = fn()
+                if isinstance(r, numpy.ndarray):
+                    r[...] = -7
+        except Exception:
+            pass
+        again = _grid_apis(cat, mag_edges)
+        fresh = _grid_apis(CSEPCatalog(data=data, region=regs[t]), mag_edges)
+        run.evaluations += 3
+        for api in fresh:
+            if got[api] != fresh[api] or again[api] != fresh[api]:
+                which = "first call" if got[api] != fresh[api] else "second call, after the returned arrays were overwritten"
+                run.oracle_failure(dict(case, at_step=step),
+                                   f"step {step + 1} of {order}: after re-binding the catalog to region '{t}' {api} ({which}) is "
+                                   f"{str(got[api] if got[api] != fresh[api] else again[api])[:120]}; a fresh catalog of the same events bound to that region gives {str(fresh[api])[:120]}")
+                return
+        if t in ("a", "twin"):
+            allin = all(ans[k] != "o" for k in ids)
+            if (fresh["spatial_counts"] == "ValueError") == allin:
+                run.oracle_failure(dict(case, at_step=step), f"spatial_counts on region '{t}': {str(fresh['spatial_counts'])[:80]}, but "
+                                                             f"{'every event lies' if allin else 'some event does not lie'} in an active cell")
+                return
+        for tt, r in regs.items():
+            if _snap(r) != snaps[tt]:
+                run.oracle_failure(dict(case, at_step=step), f"region '{tt}' was changed by the calls of step {step + 1}")
+                return
+
+
+def check_sizes_and_forms(run, base, region, orc, pts, ans, exact_only, orng, seed):
+    """(3) size thresholds: 501 / 2 001 / 5 001 (quick: one of them) and 2^16+1 / 2^17+1 (thorough, or every 8th region) points in ONE
+    call — the boundary-directed points in the first block, at the block boundaries and at the end — must get the per-point answers;
+    (2) the caller's coordinate arrays are unchanged, and after the caller changes them in place the answer is that of the new
+    content; (1) writing into the returned arrays does not change the next answer; (4) keyword arguments; (5) float32 / integer /
+    -0.0 coordinates for points far from every boundary; (6) an iterator where an iterable of indices is documented."""
+    pool = sorted(exact_only)
+    if len(region.xs) == 1:
+        pool = [k for k in pool if Fraction(pts[k][0]) < orc.ax.top]
+    if len(region.ys) == 1:
+        pool = [k for k in pool if Fraction(pts[k][1]) < orc.ay.top]
+    if len(pool) < 2:
+        return
+    case = dict(base, points=[], what="ops:sizes_and_forms", ops_seed=seed)
+    sizes = [orng.choice([501, 2001, 5001])]
+    if run.extra.get("_tier") != "quick" or seed % 8 == 0:
+        sizes += [2 ** 16 + 1, 2 ** 17 + 1]
+    marks = (0, 499, 500, 1999, 2000, 4999, 5000, 65535, 65536, 131071, 131072)
+    for N in sizes:
+        ids = numpy.array([orng.choice(pool) for _ in range(min(N, 4000))])
+        ids = numpy.resize(ids, N)
+        for pos in marks + (N - 1,):
+            if pos < N:
+                ids[pos] = pool[(pos * 7 + seed) % len(pool)]
+        lon = numpy.array([pts[k][0] for k in ids]); lat = numpy.array([pts[k][1] for k in ids])
+        exp = numpy.array([-1 if ans[k] == "o" else ans[k] for k in ids])
+        l0, a0 = lon.copy(), lat.copy()
+        run.evaluations += N
+        run.count(f"ops:size-{N}")
+        m = numpy.asarray(region.get_masked(lons=lon, lats=lat)).astype(bool)              # keyword form
+        if not (numpy.array_equal(lon, l0) and numpy.array_equal(lat, a0)):
+            run.oracle_failure(dict(case, size=N), f"get_masked modified the caller's coordinate arrays ({N} points)")
+            return
+        if m.shape != exp.shape or not numpy.array_equal(m, exp < 0):
+            i = int(numpy.argmax(m != (exp < 0))) if m.shape == exp.shape else 0
+            run.oracle_failure(dict(case, points=[[repr(float(lon[i])), repr(float(lat[i]))]], size=N, position=i),
+                               f"as point {i} of {N} in ONE call get_masked gives {bool(m[i]) if m.shape == exp.shape else m.shape}; looked up in a small array the point is in cell {int(exp[i])}")
+            return
+        if (~m).any():
+            gi = numpy.asarray(region.get_index_of(lons=lon[~m], lats=lat[~m]))
+            if not (numpy.array_equal(lon, l0) and numpy.array_equal(lat, a0)):
+                run.oracle_failure(dict(case, size=N), f"get_index_of modified the caller's coordinate arrays ({N} points)")
+                return
+            if gi.shape != exp[~m].shape or not numpy.array_equal(gi, exp[~m]):
+                i = int(numpy.argmax(gi != exp[~m])) if gi.shape == exp[~m].shape else 0
+                run.oracle_failure(dict(case, size=N, position=i), f"get_index_of of {int((~m).sum())} points in ONE call differs at position {i} from the lookups in small arrays")
+                return
+    # aliasing
+    sub = [orng.choice(pool) for _ in range(40)]
+    lon = numpy.array([pts[k][0] for k in sub]); lat = numpy.array([pts[k][1] for k in sub])
+    exp_m = [ans[k] == "o" for k in sub]
+    m1 = region.get_masked(lon, lat)
+    if isinstance(m1, numpy.ndarray):
+        m1[...] = ~numpy.asarray(m1, dtype=bool)
+    c1 = region.get_cartesian(numpy.arange(len(region.polygons), dtype=float))
+    keepc = numpy.array(c1, dtype=float).copy()
+    if isinstance(c1, numpy.ndarray):
+        c1[...] = -3.0
+    for what, arr in (("origins", region.origins()), ("midpoints", region.midpoints())):
+        if isinstance(arr, numpy.ndarray):
+            arr += 1000.0
+    m2 = [bool(v) for v in numpy.asarray(region.get_masked(lon, lat))]
+    c2 = numpy.asarray(region.get_cartesian(numpy.arange(len(region.polygons), dtype=float)), dtype=float)
+    run.evaluations += 2
+    run.count("ops:aliasing")
+    if m2 != exp_m or not numpy.array_equal(numpy.nan_to_num(c2, nan=-1.0), numpy.nan_to_num(keepc, nan=-1.0)):
+        run.oracle_failure(dict(case, points=[[repr(float(a)), repr(float(b))] for a, b in zip(lon[:10], lat[:10])]),
+                           "writing into the arrays get_masked / get_cartesian / origins / midpoints returned changed the region's next answers")
+        return
+    # the caller moves its points in place (by one cell to the east): the second answer is that of the new content
+    lon2 = lon.copy()
+    r_before = [bool(v) for v in numpy.asarray(region.get_masked(lon2, lat))]
+    lon2 += float(region.dh)
+    r_after = [bool(v) for v in numpy.asarray(region.get_masked(lon2, lat))]
+    r_fresh = [bool(v) for v in numpy.asarray(region.get_masked(lon2.copy(), lat.copy()))]
+    if r_after != r_fresh:
+        run.oracle_failure(dict(case, points=[[repr(float(a)), repr(float(b))] for a, b in zip(lon2[:10], lat[:10])]),
+                           "after the caller changed its longitude array in place get_masked still answers for the old content")
+        return
+    # dtypes: float32 / integer / -0.0 coordinates, for points that are far from every boundary in the narrower type
+    far = []
+    for k in pool:
+        x, y = pts[k]
+        if all(abs(v - b) > 1e-4 * max(1.0, abs(v)) + 0.01 * float(region.dh) for v, ax in ((x, orc.ax), (y, orc.ay)) for b in ax.e + [float(ax.top)]):
+            far.append(k)
+        if len(far) >= 30:
+            break
+    if far:
+        lon = numpy.array([pts[k][0] for k in far]); lat = numpy.array([pts[k][1] for k in far])
+        l32, a32 = lon.astype(numpy.float32), lat.astype(numpy.float32)
+        ok32 = [all(abs(float(v32) - b) > 1e-5 * max(1.0, abs(float(v32))) + 0.005 * float(region.dh) for b in ax.e + [float(ax.top)])
+                for v32s, ax in ((l32, orc.ax), (a32, orc.ay)) for v32 in v32s]
+        exp_m = [orc.allowed(float(x), float(y))[1] == "o" for x, y in zip(l32, a32)]
+        try:
+            got = [bool(v) for v in numpy.asarray(region.get_masked(l32, a32))]
+        except Exception as e:
+            got = "EXC:" + type(e).__name__
+        run.count("ops:float32-coordinates")
+        if all(ok32) and got != exp_m:
+            run.oracle_failure(dict(case, points=[[repr(float(a)), repr(float(b))] for a, b in zip(l32[:10], a32[:10])], dtype="float32"),
+                               f"get_masked of float32 coordinates (all far from every cell boundary) is {str(got)[:80]}, expected {str(exp_m)[:80]}")
+            return
+    # -0.0 is 0.0
+    for k in pool[:200]:
+        x, y = pts[k]
+        if x == 0.0 or y == 0.0:
+            nx_, ny_ = (-0.0 if x == 0.0 else x), (-0.0 if y == 0.0 else y)
+            a = bool(numpy.asarray(region.get_masked(numpy.array([nx_]), numpy.array([ny_])))[0])
+            run.count("ops:negative-zero")
+            if a != (ans[k] == "o"):
+                run.oracle_failure(dict(case, points=[[repr(nx_), repr(ny_)]]), f"the point ({nx_!r}, {ny_!r}) is masked={a}; (0.0 instead of -0.0) masked={ans[k] == 'o'}")
+                return
+            break
+    # an iterator of indices
+    n = len(region.polygons)
+    want = [0, n - 1, n // 2]
+    try:
+        got = region.get_location_of(iter(want))
+        if [region.polygons[k] is g for k, g in zip(want, got)] != [True] * 3:
+            run.oracle_failure(dict(case, what="get_location_of", indices=want), "get_location_of(iterator) does not return those polygons")
+    except Exception as e:
+        run.oracle_failure(dict(case, what="get_location_of", indices=want), f"get_location_of(iterator of indices) raised {type(e).__name__}: {e}")
+
+
 def check_ops(run, drv, pending, spec, base, region, cells, flags, orc, rng, pts, ans, exact_only, case_seed=None, only=None):
     seed, orng = _ops_rng(rng, case_seed)
     n = len(region.polygons)
     shipped = spec.get("kind") == "shipped"
-    todo = only or ["masked", "eq", "incres", "nonfinite", "big", "shared", "aftershock", "filter"]
+    todo = only or ["masked", "eq", "incres", "nonfinite", "big", "shared", "rebind", "sizes", "aftershock", "filter"]
 
     def guarded(name, fn):
         # a crash while reading an implementation output is a missed detection: report it with the case as replay
@@ -1114,6 +1345,11 @@ def check_ops(run, drv, pending, spec, base, region, cells, flags, orc, rng, pts
     if "shared" in todo:
         guarded("shared_session", lambda: check_shared_session(run, drv, pending, base, spec, region, cells, flags, orc, pts, ans,
                                                                exact_only, orng, seed))
+    if "rebind" in todo and not shipped and (only or seed % 2 == 0):
+        guarded("rebinding_history", lambda: check_rebinding_history(run, base, spec, region, cells, flags, orc, pts, ans, exact_only,
+                                                                     random.Random(seed ^ 0x5EB1), seed))
+    if "sizes" in todo and len(region.polygons) <= 20000:
+        guarded("sizes_and_forms", lambda: check_sizes_and_forms(run, base, region, orc, pts, ans, exact_only, random.Random(seed ^ 0x512E), seed))
     if "aftershock" in todo and not shipped and len(set(cells)) == len(cells) and spec.get("mask") is None:
         guarded("aftershock_region", lambda: check_aftershock(run, base, region, cells, seed))
     if "filter" in todo:
